@@ -117,7 +117,10 @@ def thdm_refmass(p, name):
 
 @st.composite
 def thdm_case(draw):
-    p = draw(gen.thdm_mass(mrange=(30.0, 3000.0), running=draw(st.booleans()),
+    # one base point in four has all scalars between 1 and 2 TeV: the bosonic two-loop sum cancels strongly there
+    # (a relative error of 1e-5 in one term is amplified ~1000x) but is still below the 2 TeV noise class
+    mr = draw(st.sampled_from([(30.0, 3000.0), (30.0, 3000.0), (30.0, 3000.0), (1000.0, 1990.0)]))
+    p = draw(gen.thdm_mass(mrange=mr, running=draw(st.booleans()),
                            sba=st.one_of(st.floats(0.9, 1.0), st.floats(-1.0, 1.0), st.just(1.0))))
     vary = draw(st.sampled_from(["mH", "mA", "mHp", "mh"]))
     kind = draw(st.sampled_from(["eq", "eq", "sum", "diff", "double", "half", "kallen", "kallen"]))
